@@ -237,6 +237,23 @@ def run(ctx):
                           f"skips the unique-name/context/callback cleanup", key=f"raw task creation {d}", node=n, rel=u.rel)
 
     # R14.4 task.executor --------------------------------------------------------------------------------------------
+    ctx.rule("R14.9", "run_coro (whose exit forgets everything recorded for the *current* task) is only ever the outermost coroutine of a task made for it: its one caller is "
+             "Function.create_task, which wraps it in loop.create_task - never awaited inside another run", floor=1)
+    rc = "function.py::Function.run_coro"
+    sites = []
+    for u in program.functions():
+        for n in body_walk(u.node):
+            if isinstance(n, ast.Call) and (call_name(n) or "").split(".")[-1] == "run_coro":
+                sites.append((u.uid, n))
+    if not sites:
+        raise AnalysisError("no call of run_coro found")
+    for uid, n in sites:
+        par = getattr(n, "_parent", None)
+        wrapped = isinstance(par, ast.Call) and (call_name(par) or "").endswith("loop.create_task") and uid == "function.py::Function.create_task"
+        ctx.check(wrapped, "R14.9", uid, f"run_coro is the coroutine of a new task ({short(par) if par is not None else ''})",
+                  msg=f"{uid}: `{short(par if isinstance(par, (ast.Await, ast.Call)) else n)}` runs run_coro inside the caller's task: when it ends its cleanup removes the still-running "
+                  f"caller from our_tasks, fires the caller's done callbacks early and forgets its unique names and context", key=f"run_coro caller {uid}", node=n, rel=uid.split("::")[0])
+
     ctx.rule("R14.7", "done callbacks that add or remove callbacks of the finishing task do not disturb the others: every remaining callback still runs once, run_coro ends normally and forgets every name", floor=4)
     callback_mutation_table(ctx, program, "R14.7")
 
